@@ -354,6 +354,69 @@ def restrict(v, cond):
     return v
 
 
+def specialise(v, asg):
+    """The value `v` under a (partial) truth assignment of atoms: every case split whose guards are decided by the
+    assignment is replaced by the alternative that holds.  `asg` maps atom keys to booleans; atoms it does not
+    mention leave a split undecided (kept)."""
+    def ev(c):
+        ats = F.atoms(c)
+        if all(a in asg for a in ats):
+            return F.evalf(c, asg)
+        return None
+    if isinstance(v, PhiV):
+        decided = [(ev(c), x) for c, x in v.alts]
+        hit = [x for r_, x in decided if r_ is True]
+        if len(hit) == 1 and all(r_ is not None for r_, _ in decided):
+            return specialise(hit[0], asg)
+        return PhiV([(c, specialise(x, asg)) for (c, x), (r_, _) in zip(v.alts, decided) if r_ is not False])
+    if isinstance(v, Via):
+        return Via(v.name, specialise(v.inner, asg), v.callee)
+    if isinstance(v, Sel):
+        return Sel(specialise(v.base, asg), v.sel)
+    if isinstance(v, TupleV):
+        return TupleV([specialise(x, asg) for x in v.items])
+    if isinstance(v, StructV):
+        return StructV(v.adt, v.variant, {k: specialise(x, asg) for k, x in v.fields.items()}, v.base, v.node)
+    if isinstance(v, CallV):
+        return CallV(v.callee, [specialise(a, asg) for a in v.args], v.node, getattr(v, "inst", None))
+    if isinstance(v, IndexV):
+        return IndexV(specialise(v.base, asg), specialise(v.idx, asg))
+    if isinstance(v, OpV):
+        return OpV(v.op, [specialise(a, asg) for a in v.args])
+    return v
+
+
+def variant_assignment(v, place, variant):
+    """assignment making `place is variant` true and every other variant atom of that place (found in v) false"""
+    asg = {}
+    def walk(x):
+        if isinstance(x, PhiV):
+            for c, y in x.alts:
+                for a in F.atoms(c):
+                    if a[0] == "variant" and a[1] == place:
+                        asg[a] = (a[2] == variant)
+                walk(y)
+        elif isinstance(x, Via):
+            walk(x.inner)
+        elif isinstance(x, Sel):
+            walk(x.base)
+        elif isinstance(x, (TupleV, ArrayV)):
+            for y in x.items:
+                walk(y)
+        elif isinstance(x, StructV):
+            for y in x.fields.values():
+                walk(y)
+        elif isinstance(x, (CallV, OpV)):
+            for y in x.args:
+                walk(y)
+        elif isinstance(x, IndexV):
+            walk(x.base)
+            walk(x.idx)
+    walk(v)
+    asg[("variant", place, variant)] = True
+    return asg
+
+
 def split_guards(v, acc=None):
     """guards of the case splits inside v (in order of first appearance)"""
     if acc is None:
@@ -424,6 +487,7 @@ class InterpError(Exception):
 
 _KNOWN = None
 _UMAX = {"u8": 0xFF, "u16": 0xFFFF, "u32": 0xFFFFFFFF, "u64": 0xFFFFFFFFFFFFFFFF, "usize": 0xFFFFFFFFFFFFFFFF}
+_FROMSTR = re.compile(r"<impl std::str::FromStr for ([^>]+(?:<.*>)?)>::from_str$")
 _U = "(u8|u16|u32|u64|usize)"
 _INT_TRY = re.compile(r"^<%s as std::convert::TryFrom<%s>>::try_from$|^<%s as std::convert::TryInto<%s>>::try_into$|^std::convert::num::<impl std::convert::TryFrom<%s> for %s>::try_from$" % (_U, _U, _U, _U, _U, _U))
 
@@ -478,7 +542,7 @@ class Interp:
         for e in self.ctx[since:]:
             if e[0] == "cond":
                 fs.append(e[1])
-            elif e[0] == "act" and e[1].ret is not False:
+            elif e[0] in ("act", "iter", "loopctl") and e[1].ret is not False:
                 fs.append(Not(e[1].ret))
             elif e[0] == "rep":
                 pass
@@ -491,7 +555,7 @@ class Interp:
                 item = {"t": "Cond", "f": e[1], "c": [item]}
             elif e[0] == "rep":
                 item = {"t": "Rep", "over": e[1], "c": [item]}
-            elif e[0] == "act" and e[1].ret is not False:
+            elif e[0] in ("act", "iter", "loopctl") and e[1].ret is not False:
                 item = {"t": "Cond", "f": Not(e[1].ret), "c": [item]}
         sink.items.append(item)
 
@@ -639,7 +703,12 @@ class Interp:
     def bindpat(self, p, v, fr):
         k = p["k"]
         if k == "Binding":
-            fr[p["hid"]] = MutV(v) if p.get("mut") and not isinstance(v, (WriterV, ClosureV)) else v
+            if p.get("mut") and not isinstance(v, (WriterV, ClosureV)):
+                mv = MutV(v)
+                mv.depth = len(self.ctx)      # where the variable was declared: later assignments join under their path condition
+                fr[p["hid"]] = mv
+            else:
+                fr[p["hid"]] = v
             if p.get("sub"):
                 return self.bindpat(p["sub"], v, fr)
             return True
@@ -1006,20 +1075,36 @@ class Interp:
     def ev_For(self, n, fr):
         it = self.ev(n["iter"], fr)
         lit = core(it)
-        if isinstance(lit, ArrayV) and 0 < len(lit.items) <= 64:
-            # a loop over a literal table: unroll it
-            for x in lit.items:
-                self.bindpat(n["pat"], x, fr)
-                self.ev(n["body"], fr)
-            return UNIT
-        elem = elem_of(it)
-        self.bindpat(n["pat"], elem, fr)
-        self.ctx.append(("rep", core(it).src if isinstance(core(it), IterMapV) else it))
+        if isinstance(lit, Def) and ("Const" in lit.dk or "Static" in lit.dk):
+            cv = self.const_value(lit.path)
+            if cv is not None and isinstance(core(cv), ArrayV):
+                lit = core(cv)
+        loop = Act("<loop>")
+        self.ctx.append(("loopctl", loop))
         try:
-            self.ev(n["body"], fr)
+            if isinstance(lit, ArrayV) and 0 < len(lit.items) <= 64:
+                # a loop over a literal table: unroll it; `continue` skips the rest of one iteration, `break` the rest
+                # of the loop (both as conditions on what follows)
+                for x in lit.items:
+                    self.ctx.append(("iter", Act("<iter>")))
+                    try:
+                        self.bindpat(n["pat"], x, fr)
+                        self.ev(n["body"], fr)
+                    finally:
+                        self.ctx.pop()
+                return UNIT
+            elem = elem_of(it)
+            self.bindpat(n["pat"], elem, fr)
+            self.ctx.append(("rep", core(it).src if isinstance(core(it), IterMapV) else it, it))
+            self.ctx.append(("iter", Act("<iter>")))
+            try:
+                self.ev(n["body"], fr)
+            finally:
+                self.ctx.pop()
+                self.ctx.pop()
+            return UNIT
         finally:
             self.ctx.pop()
-        return UNIT
 
     def ev_Loop(self, n, fr):
         self.ctx.append(("rep", Unknown("loop")))
@@ -1029,17 +1114,62 @@ class Interp:
             self.ctx.pop()
         return Unknown("loop")
 
+    def _innermost(self, tag):
+        for i in range(len(self.ctx) - 1, -1, -1):
+            if self.ctx[i][0] == tag:
+                return i
+            if self.ctx[i][0] == "act":
+                return None
+        return None
+
     def ev_Break(self, n, fr):
         if n.get("e"):
             self.ev(n["e"], fr)
+        i = self._innermost("iter")
+        if i is not None:
+            c = self.cur_cond(i + 1)
+            it_act = self.ctx[i][1]
+            c = And(c, Not(it_act.ret) if it_act.ret is not False else True)
+            j = self._innermost("loopctl")
+            in_sym = any(e[0] == "rep" for e in self.ctx[(j or 0):i])
+            if j is not None and not in_sym:
+                self.ctx[j][1].ret = Or(self.ctx[j][1].ret, c)
+            it_act.ret = Or(it_act.ret, c)
         return UNIT
 
     def ev_Continue(self, n, fr):
+        i = self._innermost("iter")
+        if i is not None:
+            c = self.cur_cond(i + 1)
+            it_act = self.ctx[i][1]
+            it_act.ret = Or(it_act.ret, And(c, Not(it_act.ret) if it_act.ret is not False else True))
         return UNIT
 
     def ev_Try(self, n, fr):
         v = self.ev(n["e"], fr)
         self.tries.append((v, n, self.cur_fn(), self.cur_cond()))
+        v0 = core(v)
+        alts = v0.alts if isinstance(v0, PhiV) else [(True, v0)]
+        errs = [(c, x) for c, x in alts if isinstance(core(x), StructV) and core(x).variant == "Err"]
+        if errs and (isinstance(v0, PhiV) or len(alts) == 1):
+            # `?` on a value known to be Err(..) on some paths: those paths return that error
+            idx = None
+            for i in range(len(self.ctx) - 1, -1, -1):
+                if self.ctx[i][0] == "act":
+                    idx = i
+                    break
+            if idx is not None and not any(e[0] == "rep" for e in self.ctx[idx + 1:]):
+                act = self.ctx[idx][1]
+                here = self.cur_cond(idx + 1)
+                outer = [e[1] for e in self.ctx[:idx] if e[0] == "cond"]
+                for c, x in errs:
+                    cc = And(here, c, Not(act.ret) if act.ret is not False else True)
+                    if cc is False:
+                        continue
+                    act.fails.append((cc, x, n))
+                    self.fails.append((And(And(*outer), cc), x, n, self.cur_fn()))
+                    act.ret = Or(act.ret, cc) if False else act.ret
+                    act.exits = Or(getattr(act, "exits", False), cc)
         return Via("?", self._unwrap_ok(v))
 
     def _try_success(self, v, n):
@@ -1076,6 +1206,21 @@ class Interp:
                 return PhiV(alts)
         return v
 
+    def expand(self, f):
+        """Replace every `any(S, phi)` / loop-derived `contains` atom by its per-element formula phi (for rules that
+        reason about what is tested of one element of an iteration)."""
+        if f is True or f is False:
+            return f
+        if f[0] == "atom":
+            v = self.atom_vals.get(f[1])
+            if f[1][0] in ("any", "contains") and v and len(v) == 3 and v[0] is not True and not isinstance(v[0], V):
+                return self.expand(v[0]) if v[0] != f else f
+            return f
+        if f[0] == "not":
+            return Not(self.expand(f[1]))
+        parts = [self.expand(g) for g in f[1]]
+        return And(*parts) if f[0] == "and" else Or(*parts)
+
     def _is_fnitem(self, x):
         """a named local function used as a value (callback)"""
         x = core(x)
@@ -1093,11 +1238,49 @@ class Interp:
             return UNIT
         act = self.ctx[idx][1]
         fs = []
+        inner = None      # conditions inside the innermost symbolic iteration
+        loop_src = None
         for e in self.ctx[idx + 1:]:
+            tgt_ = inner if inner is not None else fs
             if e[0] == "cond":
-                fs.append(e[1])
+                tgt_.append(e[1])
+            elif e[0] in ("iter", "loopctl") and e[1].ret is not False:
+                tgt_.append(Not(e[1].ret))
             elif e[0] == "rep":
-                fs.append(atom("opaque", "in-loop@%s" % n.get("sp")))
+                if inner is not None:
+                    # nested symbolic loops: keep the outer part opaque
+                    a_ = atom("opaque", "in-loop@%s" % n.get("sp"))
+                    it_ = loop_src
+                    self.atom_vals[a_[1]] = ("loop", it_, elem_of(it_))
+                    fs.append(a_)
+                    fs.extend(inner)
+                inner = []
+                loop_src = e[2] if len(e) > 2 else e[1]
+        if inner is not None:
+            # leaving the function from inside `for x in S`: some element of S satisfies the conditions collected inside
+            # the iteration  ->  any(S, phi(elem)); a single equality / variant test of the element is `contains`
+            phi = And(*inner)
+            el = elem_of(loop_src)
+            elr = core(el).r()
+            srcr = core(loop_src).r()
+            ats_ = F.atoms(phi) if phi is not True and phi is not False else []
+            a_ = None
+            if len(ats_) == 1 and phi == ("atom", ats_[0]):
+                x_ = ats_[0]
+                if x_[0] == "variant" and x_[1] == elr:
+                    a_ = atom("contains", srcr, x_[2])
+                elif x_[0] == "eq" and elr in (x_[1], x_[2]):
+                    a_ = atom("contains", srcr, x_[2] if x_[1] == elr else x_[1])
+            if a_ is None:
+                a_ = atom("any", srcr, F.show(phi))
+            self.atom_vals[a_[1]] = (phi, el, loop_src)
+            # the crate-wide failure log keeps the per-element view (which element test fails inside the loop)
+            o_ = atom("opaque", "in-loop@%s" % n.get("sp"))
+            self.atom_vals[o_[1]] = ("loop", loop_src, el)
+            fs_log = fs + [o_] + inner
+            fs.append(a_)
+        else:
+            fs_log = fs
         c = And(And(*fs), Not(act.ret) if act.ret is not False else True)
         v0 = core(v)
         if isinstance(v0, StructV) and v0.variant == "Err":
@@ -1105,7 +1288,8 @@ class Interp:
             act.fails.append((c, v, n))
             # the crate-wide log carries the whole path (conditions of enclosing inlined activations too)
             outer = [e[1] for e in self.ctx[:idx] if e[0] == "cond"]
-            self.fails.append((And(And(*outer), c), v, n, self.cur_fn()))
+            c_log = And(And(*fs_log), Not(act.ret) if act.ret is not False else True)
+            self.fails.append((And(And(*outer), c_log), v, n, self.cur_fn()))
             return UNIT
         act.rets.append((c, v))
         act.ret = Or(act.ret, c)
@@ -1143,7 +1327,15 @@ class Interp:
         if x["k"] == "Path" and x["res"] == "local":
             cur = fr.get(x["hid"])
             if sel == "" and op == "=":
-                fr[x["hid"]] = MutV(r)
+                depth = getattr(cur, "depth", None)
+                c_ = self.cur_cond(depth) if depth is not None and depth <= len(self.ctx) else True
+                if c_ is True or c_ is False or not isinstance(cur, MutV):
+                    new_ = MutV(r)
+                else:
+                    # an assignment on some paths only: the variable is a join of the new and the previous value
+                    new_ = MutV(PhiV([(c_, r), (Not(c_), cur if cur.ops else cur.base)]))
+                new_.depth = depth if depth is not None else len(self.ctx)
+                fr[x["hid"]] = new_
             elif isinstance(cur, MutV):
                 cur.ops.append(("assign" if op == "=" else op, sel, r))
 
@@ -1192,6 +1384,15 @@ class Interp:
         return self.call_fn(callee, n.get("inst"), args, n, fr)
 
     def call_fn(self, callee, inst, args, n, fr):
+        # `s.parse::<T>()` and `T::from_str(s)` are the same function: one canonical callee `parse::<T>`
+        full_ = inst or callee or ""
+        m_ = _FROMSTR.search(full_)
+        if m_ and len(args) == 1:
+            callee = inst = "parse::<%s>" % m_.group(1)
+        elif full_.endswith("impl str>::parse") and len(args) == 1:
+            m2_ = re.match(r"^std::result::Result<(.+), [^,]+>$", n.get("ty", "") or "")
+            if m2_:
+                callee = inst = "parse::<%s>" % m2_.group(1)
         self.calls.append((inst or callee, args, n, self.cur_cond(), self.cur_fn()))
         if self._mut_args:
             for mv in self._mut_args:
@@ -1234,7 +1435,11 @@ class Interp:
                     a_ = atom("inrange", core(args[1]).r(), lo, hi, True)
                     self.atom_vals[a_[1]] = (args[1],)
                     return BoolV(a_)
-                a_ = atom("contains", c0.r(), core(args[1]).r())
+                needle = core(args[1])
+                ntxt = needle.r()
+                if isinstance(needle, StructV) and needle.variant and not needle.fields:
+                    ntxt = needle.variant.split("::")[-1]
+                a_ = atom("contains", c0.r(), ntxt)
                 self.atom_vals[a_[1]] = (args[0], args[1])
                 return BoolV(a_)
             if last in ("any", "all") and len(args) == 2 and (isinstance(core(args[1]), ClosureV) or self._is_fnitem(args[1])):
@@ -1251,7 +1456,7 @@ class Interp:
                     return BoolV(And(sm, body) if last == "any" else Or(Not(sm), body))
                 body = self.to_formula(apply_pred(Sel(c0, "[]")))
                 a_ = atom(last, c0.r(), F.show(body))
-                self.atom_vals[a_[1]] = (body, Sel(c0, "[]"))
+                self.atom_vals[a_[1]] = (body, Sel(c0, "[]"), args[0])
                 return BoolV(a_)
             if last == "le" and len(args) == 2:
                 return BoolV(self._cmp("<=", args[0], args[1]))
